@@ -197,6 +197,26 @@ int main(int argc, char** argv) {
         CHECK(maxt == shim::omp_team()); CHECK(omp_get_num_threads() == 1);
         c.barrier();
     }, nullptr});
+    S.push_back({"omp dynamic/guided schedules cover every index once", 2, "ok", [](int rank, std::vector<std::string>& msgs) {
+        mpi::communicator c; int n = 41; std::vector<int> hit(n, 0), hit2(n, 0); std::set<int> tids;
+        #pragma omp parallel for schedule(dynamic, 3)
+        for (int i = 0; i < n; i++) { hit[i]++; }
+        #pragma omp parallel for schedule(guided)
+        for (int i = 0; i < n; i++) { hit2[i]++; }
+        for (int i = 0; i < n; i++) { CHECK(hit[i] == 1); CHECK(hit2[i] == 1); }
+        c.barrier();
+    }, nullptr});
+    S.push_back({"omp reduction, critical, per-thread buffers", 2, "ok", [](int rank, std::vector<std::string>& msgs) {
+        mpi::communicator c; int n = 100; long sum = 0; std::complex<double> z = 0; std::vector<long> per(omp_get_max_threads(), 0); long crit = 0;
+        #pragma omp parallel for reduction(+:sum)
+        for (int i = 0; i < n; i++) { sum += i; per[omp_get_thread_num()] += i;
+            #pragma omp critical
+            { crit += 1; z += std::complex<double>(1, i); } }
+        long tot = 0; for (long v : per) tot += v;
+        CHECK(sum == 4950); CHECK(tot == 4950); CHECK(crit == n); CHECK(z == std::complex<double>(100, 4950));
+        CHECK(omp_get_max_threads() >= 1);
+        c.barrier();
+    }, nullptr});
     S.push_back({"work() varies completion order", 4, "ok", [](int rank, std::vector<std::string>& msgs) {
         mpi::communicator c; shim::work(10); int v = rank; if (rank) c.send(0, 0, v); else for (int i = 1; i < 4; i++) { c.recv(mpi::any_source, 0, v); shim::note(v); }
     }, nullptr});
